@@ -18,7 +18,7 @@ RULE = ("each case: format, k<=3, N<=6, 1-12 servers with a drawn behaviour each
         " Added dimensions: an intermediate overwrite that some share holders miss (they stay listed, or leave and return so that their share numbers are re-homed), with the option that exactly the holders of the current version fail during the publish under test; a stale-survey template for grids with fewer servers than shares in which the interloper lands only part of its shares on one server and one of the writer's requests to that server is lost (oracle: a successful publish was never shown, in any answer to its writes, a share state it had neither surveyed nor written).")
 LEVEL_TEXT = "Fault-plan and schedule search with wire-level ground truth for what was acknowledged."
 ASSUMPTIONS = ["one writer (concurrent writers are C12)", "injected failures strike the write call (slot_testv_and_readv_and_writev); reads used by the survey succeed unless the server is down/disconnected"]
-REQUIRED_CLASSES = ["stale-survey-publish", "stale-survey-publish-sibling-share", "stale-shares-before-publish", "stale-shares-before-publish:new-holders-fail", "stale-shares-before-publish:share-numbers-rehomed", "success", "error", "success-with-failed-writes", "acked==k", "update", "create-under-faults", "mdmf", "sdmf", "fault-applied-but-unacked"]
+REQUIRED_CLASSES = ["update-by-client-with-other-defaults", "stale-survey-publish", "stale-survey-publish-sibling-share", "stale-shares-before-publish", "stale-shares-before-publish:new-holders-fail", "stale-shares-before-publish:share-numbers-rehomed", "success", "error", "success-with-failed-writes", "acked==k", "update", "create-under-faults", "mdmf", "sdmf", "fault-applied-but-unacked"]
 BUDGET = {"quick": 900, "thorough": 7200}
 KINDS = ["ok", "ok", "ok", "fail-write", "fail-write-nth", "dead-write", "dead-write-nth", "applied-unacked", "disconnect", "late", "down"]
 W = "slot_testv_and_readv_and_writev"
@@ -62,6 +62,7 @@ def _case(draw, k, n, nserv, seg, sib, fplan):
             "mid": draw(st.sampled_from([None, None, 1])) and {"down": draw(st.lists(st.integers(0, 11), min_size=1, max_size=4)), "failnew": draw(st.booleans()),
                                                                # ...the writer knows they are away (so their share numbers get new homes) or still lists them
                                                                "leave": draw(st.booleans())},
+            "other_k": draw(st.sampled_from([0, 0, 1, 2, 3])),
             "keyskip": draw(st.integers(0, 7)),      # which fixture key the file gets, hence its storage index and the servers' permuted order
             "interloper": (sib or draw(st.sampled_from([None, None, None, 1]))) and {"down": draw(st.lists(st.integers(0, 11), max_size=3)), "gone": draw(st.lists(st.integers(0, 11), max_size=4)), "template": draw(st.sampled_from([0, 1, 2, 3])), "size": draw(st.integers(1, 3 * seg)),
                                                                            # the interloper gets only part of its shares onto one server that holds several; the writer's write to (one of) them is lost
@@ -347,8 +348,17 @@ def run_case(case, ctx):
                 alt = [first_contents[:off] + new + first_contents[off + len(new):]]
             classes.add("update")
 
+            unode = node
+            if case.get("other_k"):
+                # the update is made by another client, configured with other encoding defaults, that has only just opened the file from its cap
+                k2 = 1 + (k - 1 + case["other_k"]) % 4
+                if k2 != k:
+                    oc = g.add_client({"k": k2, "n": max(n, k2), "happy": 1, "max_segment_size": 131072})
+                    unode = oc.nodemaker.create_from_cap(cap)
+                    classes.add("update-by-client-with-other-defaults")
+
             def start():
-                d = node.get_best_mutable_version()
+                d = unode.get_best_mutable_version()
                 d.addCallback(lambda mv: mv.update(mutfile.mdata(new), off))
                 return d
         r, desc = publish("%s(%d bytes)" % (case["op"], len(new)), planB, start)
